@@ -203,8 +203,14 @@ func (g *AbsGen) txnOp() M {
 		o["mi"] = g.casIdx(k)
 	case "lock", "unlock", "check-session":
 		o["s"] = g.pick(sessIds)
-	case "delete-tree", "get-tree":
+	case "delete-tree":
 		o["k"] = keyJ(g.pick(WidePrefixes))
+	case "get-tree":
+		p := g.pick(WidePrefixes)
+		if g.TxnKV && p == "" {
+			p = "a" // the Txn endpoint refuses an empty key for every verb but delete-tree
+		}
+		o["k"] = keyJ(p)
 	}
 	return o
 }
